@@ -292,7 +292,7 @@ class sun_md5_crypt(uh.HasRounds, uh.HasSalt, uh.GenericHandler):  # type: ignor
             salt = hash[salt_idx:-1]
             chk = None
             bare_salt = False
-        elif chk_idx > 0 and hash[chk_idx - 1] == "$":
+        elif chk_idx > salt_idx and hash[chk_idx - 1] == "$":
             # $$-hash
             salt = hash[salt_idx : chk_idx - 1]
             chk = hash[chk_idx + 1 :]
